@@ -1,13 +1,13 @@
 from lib.driver import Ob
 
 LEVEL = 'model_checking'
-EXPLANATION = ('Bounded symbolic checking of the real TimexResolver / TimexValue / TimexDateHelpers code: CrossHair executes the '
-               'functions on symbolic ints/datetimes and z3 decides every path; oracles are integer calendar arithmetic written '
-               'independently of datetime.')
+EXPLANATION = ('Bounded symbolic checking of the real TimexResolver / TimexValue / TimexDateHelpers / TimexRangeResolver / TimexConstraintsHelper code: symx executes the '
+               'functions on symbolic ints, a symbolic calendar and TIMEX strings whose number fields are digit placeholders; z3 decides every branch; oracles are integer calendar '
+               'arithmetic written independently of datetime. Constraint collapse is checked as one inductive step on ranges with symbolic endpoints under a termination monitor.')
 ASSUMPTIONS = ['Timex objects are built from fields (Timex(year=..)), the string->field step is covered by C14',
                'reference dates 1950..2090; years 1..9998 for year/month ranges']
 OUTSIDE = ['TIMEX strings that the datatype regexes parse into other field combinations than the ones listed',
-           'range resolver: month-day / time / duration candidates, several constraints, time-range constraints (only the single date range + weekday clause is built)']
+           'range resolver: duration candidates and time-range candidates (no oracle in the statement / recorded observations); an end-to-end run with several symbolic dates in the constraint strings (replaced by the collapse step + single-range evaluate)']
 
 R = 'datatypes_timex_expression.timex_resolver:TimexResolver.'
 
